@@ -151,10 +151,10 @@ def run_sequence(cvxopt, rng, nops, lines, obs):
             def f(): env[dst] = env[nm]; return 'ok'
             emit('alias %s %s' % (dst, nm), f)
         elif k < 0.90:
-            dst = rng.choice(names); w = rng.choice(['neg', 'pos', 'trans', 'ctrans'])
+            dst = rng.choice(names); w = rng.choice(['neg', 'pos', 'trans', 'ctrans', 'real', 'imag'])
             def f():
                 r = {'neg': lambda: -A, 'pos': lambda: +A, 'trans': lambda: A.trans() if rng.random() < 0.5 else A.T,
-                     'ctrans': lambda: A.ctrans() if rng.random() < 0.5 else A.H}[w]()
+                     'ctrans': lambda: A.ctrans() if rng.random() < 0.5 else A.H, 'real': lambda: A.real(), 'imag': lambda: A.imag()}[w]()
                 if r is A: raise RuntimeError('%s returned the same object' % w)
                 env[dst] = r; return show_mat(r)
             emit('%s %s %s' % (w, dst, nm), f)
